@@ -27,9 +27,9 @@ def DlFrom (s : State) (n : NoteId) (e : Nat) : Prop :=
 
 def DKS (s : State) (n : NoteId) : DK → Prop
   | .notifyApi => s.notifyCalled n = true ∧ (s.notes n).allocated = true
-  | .newSelf par _ =>
+  | .newSelf par dl =>
     ∀ p, par = some p → (s.notes n).allocated = true ∧ (s.notes p).allocated = true ∧
-      s.ancEver n = n :: s.ancEver p
+      s.ancEver n = n :: s.ancEver p ∧ s.ownDl n = dl
   | _ => True
 
 def NKS (s : State) (n : NoteId) : NK → Prop
@@ -55,8 +55,9 @@ def SClaim (s : State) : PC → Prop
   | .chd pos stk top =>
     NKS s top.n top.k ∧ Caused s top.n ∧ (∀ g ∈ stk, Caused s g.note) ∧
     (∀ c, pos.child = some c → Caused s c)
-  | .newP _ n p _ =>
-    (s.notes n).allocated = true ∧ (s.notes p).allocated = true ∧ s.ancEver n = n :: s.ancEver p
+  | .newP pos n p _ =>
+    (s.notes n).allocated = true ∧ (s.notes p).allocated = true ∧
+    s.ancEver n = n :: s.ancEver p ∧ (pos = .st → Caused s p)
   | .fr pos n par c _ =>
     (∀ p, par = some p → Above s p n) ∧ (pos.inLoop = true → Above s n c)
   | _ => True
@@ -74,6 +75,15 @@ structure InvS (s : State) : Prop where
 
 theorem InvS.init : InvS Note.init := by
   refine ⟨?_, ?_, ?_, ?_, ?_, ?_, ?_, ?_⟩ <;> simp [Note.init, SClaim, NoteRec.blank]
+
+/-- A notified note has a cause. -/
+theorem InvS.caused_of_notified {s : State} (hS : InvS s) {n : NoteId}
+    (ha : (s.notes n).allocated = true) (hn : s.Notified n) : Caused s n := by
+  rcases hn with hf | he
+  · exact hS.flag n hf
+  · rcases hS.expiry n 0 ha he with ⟨a, h1, h2⟩ | ⟨_, h⟩
+    · exact ⟨a, h1, Or.inr ⟨0, h2, Nat.zero_le _⟩⟩
+    · exact h
 
 theorem InvS.alloc_of_anc {s : State} (h : InvS s) {n a : NoteId} (ha : a ∈ s.ancEver n) :
     (s.notes n).allocated = true := by
@@ -119,9 +129,10 @@ theorem DKS.stable {s s' : State} {e : Event} (hs : step s e = .ok s')
   | notifyApi => exact ⟨hst.called n h.1, hst.alloc n h.2⟩
   | newSelf par dl =>
     intro p hp
-    obtain ⟨h0, h1, h2⟩ := h p hp
+    obtain ⟨h0, h1, h2, h3⟩ := h p hp
     exact ⟨hst.alloc n h0, hst.alloc p h1,
-      by rw [(hst.ghost n h0).2.1, (hst.ghost p h1).2.1]; exact h2⟩
+      by rw [(hst.ghost n h0).2.1, (hst.ghost p h1).2.1]; exact h2,
+      by rw [(hst.ghost n h0).1]; exact h3⟩
   | _ => trivial
 
 theorem NKS.stable {s s' : State} {e : Event} (hs : step s e = .ok s')
@@ -146,9 +157,10 @@ theorem SClaim.stable {s s' : State} {e : Event} (hS : InvS s) (hs : step s e = 
     exact ⟨NKS.stable hs h2, Caused.stable hS hs h3,
       fun g hg => Caused.stable hS hs (h4 g hg), fun c hc' => Caused.stable hS hs (h5 c hc')⟩
   | newP pos n p dl =>
-    obtain ⟨h1, h2, h3⟩ := hc
+    obtain ⟨h1, h2, h3, h4⟩ := hc
     exact ⟨hst.alloc n h1, hst.alloc p h2,
-      by rw [(hst.ghost n h1).2.1, (hst.ghost p h2).2.1]; exact h3⟩
+      by rw [(hst.ghost n h1).2.1, (hst.ghost p h2).2.1]; exact h3,
+      fun hp => Caused.stable hS hs (h4 hp)⟩
   | fr pos n par c nx =>
     exact ⟨fun p hp => Above.stable hS hs (hc.1 p hp), fun hl => Above.stable hS hs (hc.2 hl)⟩
   | _ => trivial
@@ -169,7 +181,9 @@ theorem SClaim.afterDeadlinePc {s : State} (hS : InvS s) {n : NoteId} {nt : Dl} 
     split
     · cases par with
       | none => trivial
-      | some p => exact h p rfl
+      | some p =>
+        obtain ⟨h0, h1, h2, _⟩ := h p rfl
+        exact ⟨h0, h1, h2, fun hp => by cases hp⟩
     · trivial
   | ready1 wdl => simp only [Note.afterDeadlinePc]; split <;> trivial
   | ready2 r wdl =>
